@@ -472,3 +472,26 @@ Example feed_sim_example :
   | None => False
   end.
 Proof. vm_compute. repeat split; reflexivity. Qed.
+
+(* ================================================================== connect_upstream: C04 vs C14 *)
+(* HttpProxyPlugin.connect_upstream is modelled in Http/Upstream.v (C14: down to the socket-layer call) and in
+   Net/Conversation.v (C04: the connect log).  Same exceptions on the same requests; on success the entry C04
+   appends to its connect log is the address C14 hands to TcpServerConnection (whose connect() then strips
+   brackets and picks the address family). *)
+Theorem connect_upstream_agree ipv (ks : K.hstate) :
+  match connect_upstream ipv (host (K.request ks)) (Parser.port (K.request ks)) with
+  | Err e => K.connect_upstream ks = (ks, Err e)
+  | Ok call =>
+      exists h z, call = tcp_server_connect ipv (h, z) None /\
+        K.connect_upstream ks =
+        (K.set_upstream (Some (length (K.conns ks))) (K.set_conns (K.conns ks ++ [K.mkUp h z [] 0 false]) ks), Ok tt)
+  end.
+Proof.
+  unfold connect_upstream, K.connect_upstream.
+  destruct (host (K.request ks)) as [[|hx ht]|]; destruct (Parser.port (K.request ks)) as [z|];
+    cbn [length Nat.eqb negb andb]; try reflexivity.
+  destruct (z =? 0)%Z; cbn [negb andb]; [reflexivity|].
+  destruct ((0 <? z)%Z && (z <=? 65535)%Z); cbn [negb]; [|reflexivity].
+  unfold text_. destruct (utf8_valid (hx :: ht)); cbn [bind]; [|reflexivity].
+  exists (hx :: ht), z. split; reflexivity.
+Qed.
